@@ -320,6 +320,65 @@ def fixedstruct_window(prog, rep, rid):
     return pb, ins, tvc, paths
 
 
+def _names(b_, op_):
+    res = set()
+    if op_[0] == "k":
+        return res
+    import flow as _fl
+    nt = _fl.named_target(b_, op_, through=_fl.REF_THROUGH + ("Clone>::clone", "::clone"))
+    if nt is not None and b_.local_name(nt):
+        res.add(b_.local_name(nt))
+    for x in b_.origins(op_, through_calls=("::deref", "::as_ref", "Clone>::clone", "::clone")):
+        if x[0] in ("arg", "local"):
+            nm_ = b_.local_name(x[1])
+            if nm_:
+                res.add(nm_)
+            res.update(p_ for p_ in x[-1] if isinstance(p_, str) and p_ not in ("*", "&") and not p_.startswith("as "))
+    return res
+
+
+def r39(prog, rep, R39):
+    """R3.9 (also lifted by C11 R11.11): no window bound is combined with the file's modification time"""
+    n39 = 0
+    for p_ in sorted(prog.facts.bodies):
+        if not (p_.startswith("s4lib::readers::syslogprocessor::SyslogProcessor::") or p_.startswith("s4::exec_") or p_.startswith("s4lib::readers::evtxreader::EvtxReader::")
+                or p_.startswith("s4lib::readers::journalreader::JournalReader::") or p_.startswith("s4lib::readers::fixedstructreader::FixedStructReader::")) or "_tests" in p_ or "{closure" in p_:
+            continue
+        sb_ = prog.body(p_)
+        mt = set()
+        for c in sb_.live_calls():
+            if c.d.split("::")[-1] in ("mtime", "systemtime_to_datetime", "modified"):
+                mt.add(c.bb)
+        if not mt:
+            continue
+        n39 += 1
+        hits = []
+        for c in sb_.live_calls():
+            last = (c.o or c.d).split("::")[-1]
+            if last not in ("signed_duration_since", "sub", "lt", "le", "gt", "ge", "cmp", "partial_cmp", "eq", "ne", "duration_since", "checked_sub_signed", "max", "min"):
+                continue
+            has_mt = has_bound = False
+            for a in c.args:
+                if a[0] == "k":
+                    continue
+                # slack added to the modification time (`mtime + 1 day < after`) keeps its provenance
+                for x in sb_.origins(a, through_calls=("::deref", "Clone>::clone", "::clone", "::unwrap", "::as_ref", "ops::Add", "ops::Sub", "checked_add", "checked_sub", "::with_timezone", "::expect", "::unwrap_or")):
+                    if x[0] == "call" and (x[1] in mt or x[2].split("::")[-1] in ("mtime", "systemtime_to_datetime")):
+                        has_mt = True
+                nm_ = _names(sb_, a)
+                if any(("after" in q or "before" in q) and "after_or_before" not in q for q in nm_):
+                    has_bound = True
+            if has_mt and has_bound:
+                hits.append((last, c.line))
+        rep.examined(R39, p_, sample={"fn": p_.split("::")[-1], "uses_mtime": True, "bound_vs_mtime_operations": hits})
+        if hits:
+            rep.violation(R39, p_ + "|mtime-vs-bound", "%s (line %d): a window bound is combined with the file's modification time by %s(); a log that was copied, restored or touched is then skipped (or cut) "
+                          "although it holds messages inside the window - silently, exit status 0" % (p_.split("::")[-1], hits[0][1], hits[0][0]))
+    if n39 == 0:
+        raise CheckerError("R3.9: no SyslogProcessor method uses mtime (anchor missing)")
+
+
+
 def run(prog, rep, tier):
     facts = prog.facts
     R31 = rep.rule("R3.1", "window predicate tables (Option shapes x orderings, exhaustive)")
@@ -641,21 +700,6 @@ def run(prog, rep, tier):
                   "find_sysline_at_datetime_filter_binary_search", "find_sysline_at_datetime_filter_linear_search")
     TWO = ("dt_pass_filters", "sysline_pass_filters", "entry_pass_filters", "find_sysline_between_datetime_filters", "ts_pass_filters")
 
-    def _names(b_, op_):
-        res = set()
-        if op_[0] == "k":
-            return res
-        import flow as _fl
-        nt = _fl.named_target(b_, op_, through=_fl.REF_THROUGH + ("Clone>::clone", "::clone"))
-        if nt is not None and b_.local_name(nt):
-            res.add(b_.local_name(nt))
-        for x in b_.origins(op_, through_calls=("::deref", "::as_ref", "Clone>::clone", "::clone")):
-            if x[0] in ("arg", "local"):
-                nm_ = b_.local_name(x[1])
-                if nm_:
-                    res.add(nm_)
-                res.update(p_ for p_ in x[-1] if isinstance(p_, str) and p_ not in ("*", "&") and not p_.startswith("as "))
-        return res
     n37 = 0
     for b_ in prog.bodies():
         if not (b_.path.startswith("s4lib::") or b_.path.startswith("s4::")) or "_tests" in b_.path:
@@ -689,42 +733,7 @@ def run(prog, rep, tier):
     # future-dated message is younger than any mtime).  No comparison or subtraction in the text-log
     # processor may combine a window bound with a value derived from mtime().
     R39 = rep.rule("R3.9", "no window bound is compared with the file's modification time")
-    n39 = 0
-    for p_ in sorted(prog.facts.bodies):
-        if not (p_.startswith("s4lib::readers::syslogprocessor::SyslogProcessor::") or p_.startswith("s4::exec_") or p_.startswith("s4lib::readers::evtxreader::EvtxReader::")
-                or p_.startswith("s4lib::readers::journalreader::JournalReader::") or p_.startswith("s4lib::readers::fixedstructreader::FixedStructReader::")) or "_tests" in p_ or "{closure" in p_:
-            continue
-        sb_ = prog.body(p_)
-        mt = set()
-        for c in sb_.live_calls():
-            if c.d.split("::")[-1] in ("mtime", "systemtime_to_datetime", "modified"):
-                mt.add(c.bb)
-        if not mt:
-            continue
-        n39 += 1
-        hits = []
-        for c in sb_.live_calls():
-            last = (c.o or c.d).split("::")[-1]
-            if last not in ("signed_duration_since", "sub", "lt", "le", "gt", "ge", "cmp", "partial_cmp", "eq", "ne", "duration_since", "checked_sub_signed", "max", "min"):
-                continue
-            has_mt = has_bound = False
-            for a in c.args:
-                if a[0] == "k":
-                    continue
-                for x in sb_.origins(a, through_calls=("::deref", "Clone>::clone", "::clone", "::unwrap", "::as_ref")):
-                    if x[0] == "call" and (x[1] in mt or x[2].split("::")[-1] in ("mtime", "systemtime_to_datetime")):
-                        has_mt = True
-                nm_ = _names(sb_, a)
-                if any(("after" in q or "before" in q) and "after_or_before" not in q for q in nm_):
-                    has_bound = True
-            if has_mt and has_bound:
-                hits.append((last, c.line))
-        rep.examined(R39, p_, sample={"fn": p_.split("::")[-1], "uses_mtime": True, "bound_vs_mtime_operations": hits})
-        if hits:
-            rep.violation(R39, p_ + "|mtime-vs-bound", "%s (line %d): a window bound is combined with the file's modification time by %s(); a log that was copied, restored or touched is then skipped (or cut) "
-                          "although it holds messages inside the window - silently, exit status 0" % (p_.split("::")[-1], hits[0][1], hits[0][0]))
-    if n39 == 0:
-        raise CheckerError("R3.9: no SyslogProcessor method uses mtime (anchor missing)")
+    r39(prog, rep, R39)
 
     # ------------------------------------------------------------ R3.11 an empty selection is not an error
     # "An empty selection prints nothing and is not an error": processing_loop ends with a failure status
